@@ -43,6 +43,9 @@ type c09Scen struct {
 	// the crash - is 2.1 s old before anything else happens: the connection has outlived the expiry interval when
 	// the broker dies, and the session must still be there for a client that reconnects right after the restart.
 	LongLived bool `json:"long_lived,omitempty"`
+	// ScanPage > 0: the redis the restarted broker finds pages its SCAN replies like a real server does - that many keys
+	// are examined per call and filtered by MATCH afterwards, so a page can be empty although the cursor is not 0
+	ScanPage int `json:"scan_page,omitempty"`
 }
 
 const c09ShortExpiry = 2 // seconds
@@ -62,6 +65,7 @@ func genC09(t *rapid.T) c09Scen {
 	if s.Vers[0] == 5 && rapid.IntRange(0, 4).Draw(t, "longlived") == 0 {
 		s.LongLived = true
 	}
+	s.ScanPage = rapid.SampledFrom([]int{0, 1, 2, 3, 10}).Draw(t, "scan_page")
 	nops := rapid.IntRange(3, 12).Draw(t, "nops")
 	s.Ops = append(s.Ops, c09Op{Op: "conn", Client: 0})
 	for i := 0; i < nops; i++ {
@@ -447,6 +451,10 @@ func runC09(s c09Scen, c *ev.Case) *ev.Violation {
 func c09CheckPrefix(s c09Scen, journal []miniredis.Cmd, k int, state *c09State, inflight map[string]bool, c *ev.Case) *ev.Violation {
 	_ = k
 	r2 := miniredis.Materialize(journal, k)
+	if s.ScanPage > 0 {
+		r2.SetScanPageSize(s.ScanPage)
+		c.Label("scan_paged")
+	}
 	if _, err := r2.Start(); err != nil {
 		return harnessErr("materialise: %v", err)
 	}
